@@ -63,8 +63,26 @@ def _with_source(js, src, bad=None, rng=None):
     return json.dumps(d)
 
 
+def gen_unconnected(rng, kind):
+    """Unsendable messages handed to a client that was never connected: nothing may happen at all."""
+    ops = []
+    for i in range(rng.randrange(1, 4)):
+        if kind == "actisense":
+            js, k = _with_source(session.sendable(rng), 10 + i), "no_encoder"
+        else:
+            js = None
+            while js is None:
+                k = rng.choice(BAD_KINDS)
+                js = _with_source(session.sendable(rng, multi=(rng.random() < 0.5)), 10 + i, k, rng)
+        ops.append({"at": 0.1 + i * rng.choice([0.0, 0.01, 1.0]), "op": "send", "msg": js, "id": 10 + i, "kind": k})
+    return {"client": kind, "config": {}, "script": [], "ops": ops, "cb": {}, "unconnected": True, "fault": False,
+            "knobs": {"min_end": 5.0, "tail": QUIET_S + 5.0, "max_end": 300.0, "hb": 1.0}}
+
+
 def gen(rng, idx, tier):
     kind = CLIENTS[idx % 4]
+    if rng.random() < 0.04:
+        return gen_unconnected(rng, kind)
     fault = rng.random() < 0.3 and kind != "actisense"
     n_in = rng.randrange(2, 8)
     tags = list(range(n_in))
@@ -190,6 +208,20 @@ def execute(plan):
     kind = plan["client"]
     sfx = "." + kind
     v = []
+    if plan.get("unconnected"):
+        kinds = sorted({op.get("kind") for op in plan["ops"] if op["op"] == "send"})
+        if any(op.get("kind") in (None, "ok") for op in plan["ops"] if op["op"] == "send") or any(op["op"] != "send" for op in plan["ops"]):
+            return {"violations": [], "digest": o.digest, "stats": {"invalid_plan": 1}, "nontrivial": False, "vtime": o.end_vt}
+        if o.attempts or o.status or o.end_state != "DISCONNECTED":
+            v.append(viol("C19.W2." + (kinds[0] if kinds else "x") + sfx, o.attempts[0]["ev"] if o.attempts else len(o.trace),
+                          "unsendable message(s) %s given to a client that was never connected: %d connection attempt(s), status "
+                          "notifications %s, state %s (expected nothing to happen)" % (kinds, len(o.attempts), [s[3] for s in o.status], o.end_state)))
+        for r in o.ops:
+            if r["exc"]:
+                v.append(viol("C19.W3.raise" + sfx, r["start_ev"], "send() raised %s" % r["exc"][:100]))
+                break
+        return {"violations": v, "digest": o.digest, "stats": {"unconnected_bad_send_runs": 1, "client_" + kind: 1},
+                "nontrivial": True, "vtime": o.end_vt}
     end_ev = len(o.trace)
     st = dict(o.fired)
     st["client_" + kind] = 1
@@ -300,6 +332,9 @@ def execute(plan):
                     st["partial_block_of_cancelled_send"] = st.get("partial_block_of_cancelled_send", 0) + 1
                 elif (last_on_faulted or c["fault"] is not None) and got_m == exp_m[:len(got_m)]:
                     st["partial_block_on_faulted_connection"] = st.get("partial_block_on_faulted_connection", 0) + 1
+                elif started_before and gave_up and got_m and any(got_m == exp_m[k:k + len(got_m)] for k in range(len(exp_m))):
+                    # both: the tail moved to the new link and the caller then gave up in the middle of it
+                    st["message_tail_after_reconnect"] = st.get("message_tail_after_reconnect", 0) + 1
                 elif started_before and got_m and got_m == exp_m[len(exp_m) - len(got_m):]:
                     # the link was replaced while this message was being written: its remaining packets appear on the
                     # new link (receivers ignore continuation frames without a first frame); the statement does not
